@@ -526,14 +526,14 @@ enc_harness!(enc_tr, TR, 8, ref_tr, |v| true, true, v.0 > 255);
 enc_harness!(enc_sk, SK, 16, ref_sk, |v| true, true, v.s != 0);
 // @harness name=enc_enum_arr props=C08,C07 kind=complete note="excludes the class of D4 (absent optional field of a variant)"
 enc_harness!(enc_enum_arr, E, 16, ref_e, |v| !matches!(v, E::V3 { b: None, .. } | E::V1(_, None)), true, matches!(v, E::V3 { .. }));
-// @harness name=kf_d4_enum_array_absent props=C08 kind=complete note="D4: E::V1(x, None) is written as 82 01 82 x f6 (trailing null) instead of 82 01 81 x"
-enc_harness!(kf_d4_enum_array_absent, E, 16, ref_e, |v| matches!(v, E::V3 { b: None, .. } | E::V1(_, None)), true, true);
+// @harness name=enc_e_absent_optional props=C08 kind=complete note="D4: E::V1(x, None) is written as 82 01 82 x f6 (trailing null) instead of 82 01 81 x"
+enc_harness!(enc_e_absent_optional, E, 16, ref_e, |v| matches!(v, E::V3 { b: None, .. } | E::V1(_, None)), true, true);
 // @harness name=enc_enum_map props=C08,C07 kind=complete
 enc_harness!(enc_enum_map, EM, 16, ref_em, |v| true, true, matches!(v, EM::V2(..)));
 // @harness name=enc_enum_opt props=C08,C07 kind=complete note="excludes the class of D4 (absent optional field of a map-encoded variant)"
 enc_harness!(enc_enum_opt, EO, 16, ref_eo, |v| !matches!(v, EO::V0 { b: None, .. }), true, true);
-// @harness name=kf_d4_enum_map_absent props=C08 kind=complete note="D4: EO::V0 { a, b: None } is written with an explicit `1: null` entry"
-enc_harness!(kf_d4_enum_map_absent, EO, 16, ref_eo, |v| matches!(v, EO::V0 { b: None, .. }), true, true);
+// @harness name=enc_eo_absent_optional props=C08 kind=complete note="D4: EO::V0 { a, b: None } is written with an explicit `1: null` entry"
+enc_harness!(enc_eo_absent_optional, EO, 16, ref_eo, |v| matches!(v, EO::V0 { b: None, .. }), true, true);
 // @harness name=enc_io props=C08,C07 kind=complete
 enc_harness!(enc_io, IO, 8, ref_io, |v| true, true, matches!(v, IO::I30));
 // @harness name=enc_by props=C08,C07 kind=complete
